@@ -51,7 +51,8 @@ FamsConcSimT  == {FamConcSim(7, 8)}
 
 \* ---- the observation of every context after the step
 ObsP(x) == [done |-> DoneIn(node', err', x), err |-> ErrIn(node', err', x), dl |-> DeadlineIn(node', x),
-            vals |-> [k \in fam.keys |-> ValueIn(node', x, k)]]
+            vals |-> [k \in fam.keys |-> ValueIn(node', x, k)],
+            kids |-> IF IsCancelerIn(node', x) THEN Cardinality(kids'[x]) ELSE 0]
 ObsAll  == [i \in 1..(Len(node') + 1) |-> ObsP(i - 1)]
 InPar   == Len(hist) >= fam.seq                   \* the step being taken is a par step
 Rec(r)  == hist' = Append(hist, r @@ [now |-> now', par |-> InPar, obs |-> ObsAll])
